@@ -366,3 +366,9 @@ Section Layout.
     - apply (interleave_run _ _ _ _ H2 (phase2_ok asg k) (phase2_independent asg k)).
   Qed.
 End Layout.
+
+Lemma fs_ops_ok : forall L asg k, layout_ok L = true ->
+  Forall (Forall op_ok) (phase1 L asg) /\ Forall (Forall op_ok) (phase2 L asg k).
+Proof.
+  intros L asg k _. split; [apply phase1_ok_from|apply phase2_ok].
+Qed.
